@@ -157,6 +157,71 @@ impl ThreadLocalActor for LNode {
     }
 }
 
+/// what a parent that builds its subtree inside `pre_start` leaves for the harness: its children
+type PreKids = Arc<Mutex<Vec<(Arc<Shared>, ActorCell, JoinHandle<()>)>>>;
+
+/// how the start of such a parent ends: `pre_start` returns Err / panics / never returns (the harness then
+/// drops the start future)
+fn pre_end(mode: u8) -> Result<(), ActorProcessingErr> {
+    match mode {
+        0 => Err("scripted pre_start failure".into()),
+        _ => panic!("scripted pre_start panic"),
+    }
+}
+
+async fn pre_build(me: ActorCell, k: usize, kids: &PreKids) -> Result<(), ActorProcessingErr> {
+    for _ in 0..k {
+        let csh = Shared::new();
+        let (a, h) = Actor::spawn_linked(None, Node(csh.clone()), (), me.clone()).await.map_err(|e| format!("{e}"))?;
+        kids.lock().unwrap().push((csh, a.get_cell(), h));
+    }
+    Ok(())
+}
+
+/// A parent that `spawn_linked`s `k` children under ITSELF inside `pre_start` (the usual way to build a
+/// supervision tree) and whose start then fails.
+struct PreNode {
+    sh: Arc<Shared>,
+    k: usize,
+    mode: u8,
+    kids: PreKids,
+}
+
+impl Actor for PreNode {
+    type Msg = NodeMsg;
+    type State = ();
+    type Arguments = ();
+    async fn pre_start(&self, me: ActorRef<Self::Msg>, _: ()) -> Result<(), ActorProcessingErr> {
+        *self.sh.cell.lock().unwrap() = Some(me.get_cell());
+        pre_build(me.get_cell(), self.k, &self.kids).await?;
+        if self.mode == 2 {
+            std::future::pending::<()>().await;
+        }
+        pre_end(self.mode)
+    }
+    async fn handle(&self, _: ActorRef<Self::Msg>, _: Self::Msg, _: &mut ()) -> Result<(), ActorProcessingErr> {
+        Ok(())
+    }
+}
+
+/// the same parent as a thread-local actor (`thread_local/inner.rs` shares the lifecycle guard)
+#[derive(Default)]
+struct LPreNode;
+
+impl ThreadLocalActor for LPreNode {
+    type Msg = NodeMsg;
+    type State = ();
+    type Arguments = (Arc<Shared>, usize, u8, PreKids);
+    async fn pre_start(&self, me: ActorRef<Self::Msg>, a: Self::Arguments) -> Result<(), ActorProcessingErr> {
+        *a.0.cell.lock().unwrap() = Some(me.get_cell());
+        pre_build(me.get_cell(), a.1, &a.3).await?;
+        pre_end(a.2)
+    }
+    async fn handle(&self, _: ActorRef<Self::Msg>, _: Self::Msg, _: &mut ()) -> Result<(), ActorProcessingErr> {
+        Ok(())
+    }
+}
+
 struct Rec {
     sh: Arc<Shared>,
     cell: ActorCell,
@@ -168,6 +233,9 @@ enum Op {
     Spawn,
     SpawnL(usize),
     SpawnLT(usize, bool),
+    /// a parent that links `k` children under itself in `pre_start` and then fails to start
+    /// (mode 0 = Err, 1 = panic, 2 = the start future is dropped); `true` = thread-local parent
+    SpawnPre(usize, u8, bool),
     Link(usize, usize),
     Unlink(usize, usize),
     Block(usize),
@@ -195,6 +263,9 @@ impl Op {
             Op::Spawn => "spawn".into(),
             Op::SpawnL(p) => format!("spawnl {p}"),
             Op::SpawnLT(p, f) => format!("spawnlt {p} {}", if *f { "fail" } else { "ok" }),
+            Op::SpawnPre(k, m, tl) => {
+                format!("{} {k} {}", if *tl { "spawnpret" } else { "spawnpre" }, ["err", "panic", "cancel"][*m as usize])
+            }
             Op::Link(c, p) => format!("link {c} {p}"),
             Op::Unlink(c, p) => format!("unlink {c} {p}"),
             Op::Block(a) => format!("block {a}"),
@@ -220,6 +291,14 @@ impl Op {
             "spawn" => Op::Spawn,
             "spawnl" => Op::SpawnL(n(1)?),
             "spawnlt" => Op::SpawnLT(n(1)?, w.get(2) == Some(&"fail")),
+            "spawnpre" | "spawnpret" => {
+                let m = match *w.get(2)? {
+                    "err" => 0,
+                    "panic" => 1,
+                    _ => 2,
+                };
+                Op::SpawnPre(n(1)?, m, w[0] == "spawnpret")
+            }
             "link" => Op::Link(n(1)?, n(2)?),
             "unlink" => Op::Unlink(n(1)?, n(2)?),
             "block" => Op::Block(n(1)?),
@@ -323,6 +402,7 @@ impl World {
         let ok = |a: &usize| *a < n;
         match op {
             Op::Spawn => true,
+            Op::SpawnPre(_, m, tl) => !(*tl && *m == 2),
             Op::SpawnL(p) | Op::SpawnLT(p, _) => ok(p),
             Op::Link(c, p) | Op::Unlink(c, p) => ok(c) && ok(p),
             Op::Release(a) => ok(a) && self.nodes[*a].sh.in_handler.load(Ordering::SeqCst),
@@ -362,6 +442,41 @@ impl World {
                     }
                     (Err(_), None) => "err".to_string(), // refused before pre_start: nothing to observe
                 }
+            }
+            Op::SpawnPre(k, mode, tl) => {
+                let sh = Shared::new();
+                let kids: PreKids = Arc::new(Mutex::new(Vec::new()));
+                let r = if *tl {
+                    let spawner = self.spawner.get_or_insert_with(ThreadLocalActorSpawner::new).clone();
+                    match <LPreNode as ThreadLocalActor>::spawn(None, (sh.clone(), *k, *mode, kids.clone()), spawner).await {
+                        Ok(_) => "ok",
+                        Err(_) => "err",
+                    }
+                } else {
+                    let fut = Actor::spawn(None, PreNode { sh: sh.clone(), k: *k, mode: *mode, kids: kids.clone() }, ());
+                    if *mode == 2 {
+                        // the start never finishes: drop its future in the middle of `pre_start`
+                        let h = tokio::spawn(fut);
+                        quiesce().await;
+                        h.abort();
+                        let _ = h.await;
+                        "err"
+                    } else {
+                        match fut.await {
+                            Ok(_) => "ok",
+                            Err(_) => "err",
+                        }
+                    }
+                };
+                // the parent first, then its children in the order it spawned them
+                let cell = sh.cell.lock().unwrap().clone().expect("pre_start ran");
+                self.ids.insert(cell.get_id(), self.nodes.len());
+                self.nodes.push(Rec { sh, cell, handle: None });
+                for (csh, ccell, h) in kids.lock().unwrap().drain(..) {
+                    self.ids.insert(ccell.get_id(), self.nodes.len());
+                    self.nodes.push(Rec { sh: csh, cell: ccell, handle: Some(h) });
+                }
+                r.to_string()
             }
             Op::Spawn | Op::SpawnL(_) => {
                 let sh = Shared::new();
@@ -549,8 +664,12 @@ impl World {
                 } else {
                     Op::SpawnL(p)
                 }
-            } else if r < 39 && n < 14 {
+            } else if r < 38 && n < 14 {
                 Op::Spawn
+            } else if r < 39 && n < 11 {
+                // a parent that builds a subtree in pre_start and fails to start
+                let tl = local && rng.chance(1, 2);
+                Op::SpawnPre(rng.below(3) as usize, if tl { rng.below(2) as u8 } else { rng.below(3) as u8 }, tl)
             } else if r < 50 {
                 // a quarter of the links involve a draining / stopped side (must be refused)
                 let c = if rng.chance(1, 6) { any(rng) } else { pick_live(rng) };
@@ -685,6 +804,15 @@ fn fixed_cases() -> Vec<Vec<Op>> {
         vec![Spawn, SpawnL(0), SpawnL(0), Hold(0), Stop(0), Unlink(1, 0), Kill(2), Kill(0)],
         vec![Spawn, SpawnL(0), Hold(0), Block(0), Stop(0), Drain(0), Release(0), Stop(0), Drain(0), Abort(0)],
         vec![Spawn, Spawn, SpawnL(0), Hold(0), Hold(1), Stop(0), Stop(1), Link(2, 1), PsRelease(1), PsRelease(0)],
+        // a start that fails after the actor has linked children under itself in pre_start takes them with it
+        // (seeded change C05-10): Err, panic, dropped start future; thread-local parent
+        vec![SpawnPre(2, 0, false), Spawn, SpawnPre(1, 1, false), SpawnL(3)],
+        vec![Spawn, SpawnPre(2, 2, false), SpawnPre(0, 0, false), Kill(0)],
+        vec![SpawnPre(2, 0, true), SpawnPre(1, 1, true), Spawn],
+        // a stale unlink (after a hand-over, with the FORMER supervisor) is a no-op; the child's end is then reported
+        // to the supervisor it has (seeded change C04-11)
+        vec![Spawn, Spawn, SpawnL(0), Link(2, 1), Unlink(2, 0), Fail(2)],
+        vec![Spawn, Spawn, SpawnL(0), Unlink(2, 1), Link(2, 1), Unlink(2, 0), Unlink(2, 2), Kill(2)],
         // thread-local children: linked before pre_start
         vec![Spawn, SpawnLT(0, false), SpawnLT(1, false), Kill(0)],
         vec![Spawn, SpawnLT(0, true), SpawnLT(0, false), Stop(0)],
